@@ -15,6 +15,8 @@ best cell.  A cell's value is the score of a path from the basis to that cell un
 match `+SameCost` (`MatchCost - DiffCost`), mismatch / gap letter `-DiffCost`.
 -/
 import Biogo.Model.PalsOracle
+import Biogo.Model.PalsKernel
+import Biogo.Generated.PalsConsts
 
 namespace Biogo.Spec.PalsKernel
 open Biogo.Spec.Alignment Biogo.PalsOracle
@@ -124,5 +126,12 @@ def consistent (s d : Int) (k : KHit) : Bool :=
   representable s d (s * (alen + blen) - 2 * k.h.score) k.h.indel &&
   decide (k.lowDiagonal ≤ k.h.abpos - k.h.bbpos) && decide (k.h.abpos - k.h.bbpos ≤ k.highDiagonal) &&
   decide (k.lowDiagonal ≤ k.h.aepos - k.h.bepos) && decide (k.h.aepos - k.h.bepos ≤ k.highDiagonal)
+
+/-- `pals.defaultCosts` as the kernel model reads it, from the regenerated constants (the driver
+    runs the kernel model with exactly this record) -/
+def palsCosts : Biogo.PalsKernel.Costs :=
+  { maxIGap := Biogo.Generated.Pals.MaxIGap, diffCost := Biogo.Generated.Pals.DiffCost,
+    matchCost := Biogo.Generated.Pals.MatchCost, blockCost := Biogo.Generated.Pals.BlockCost,
+    rMatchCost := Biogo.Generated.Pals.RMatchCost }
 
 end Biogo.Spec.PalsKernel
